@@ -637,7 +637,7 @@ func c15inSitu(j run.Job, a *run.Acc) {
 			m.Each(func(k, v int) { out[k] = v })
 			return out
 		}
-		h := &gram.Hooks{Inside: gd.Inside, Outside: gd.Outside, MemoExpr: c.MemoExpr,
+		h := &gram.Hooks{Budget: gd.LeafTick, Inside: gd.Inside, Outside: gd.Outside, MemoExpr: c.MemoExpr,
 			Around: func(e *gram.Expr, p parsley.Parser) parsley.Parser {
 				label := e.String()
 				return parser.Func(func(ctx *parsley.Context, lrc data.IntMap, pos parsley.Pos) (parsley.Node, data.IntSet, parsley.Error) {
